@@ -23,7 +23,7 @@ use std::{
 use jrsonnet_evaluator::{
 	apply_tla, bail,
 	gc::WithCapacityExt as _,
-	manifest::{JsonFormat, ManifestFormat, ToStringFormat},
+	manifest::{JsonFormat, ManifestFormat, StringFormat},
 	rustc_hash::FxHashMap,
 	stack::set_stack_depth_limit,
 	tla::TlaArg,
@@ -179,7 +179,7 @@ pub extern "C" fn jsonnet_gc_growth_trigger(_vm: &VM, _v: c_double) {}
 pub extern "C" fn jsonnet_string_output(vm: &mut VM, v: c_int) {
 	vm.manifest_format = match v {
 		0 => Box::new(JsonFormat::default()),
-		1 => Box::new(ToStringFormat),
+		1 => Box::new(StringFormat),
 		_ => panic!("incorrect output format"),
 	};
 }
